@@ -11,7 +11,7 @@ const:<hex> | drop | err.  Model output: `ok <hex of Handshake.ServerAddress>` |
 Spec verdict on the IMPLEMENTATION's address:
   * no forwarding format in use, hooks that keep the first part (none / id / app): the first NUL-separated
     part must be the first part of the host the client sent (judged when that host is unambiguous: the
-    virtual-host address is `<host>:<digits>` with a non-empty first part free of `:`, `[`, `]`) and
+    virtual-host address is `<host>:<digits>` whose first part is non-empty and free of `:`, `[`, `]`) and
     `ClearVirtualHost` of the result must equal `ClearVirtualHost` of the client's host;
   * legacy / bungeeguard format: a BungeeCord backend's parser must recover exactly the backend address, the
     player's IP text, the UUID and the property list (+ extraData, + token last), judged when no component
@@ -110,6 +110,9 @@ def step (c : Case) : String × String :=
               let first := beforeNul sa
               if first.isEmpty || first.contains 58 || first.contains 91 || first.contains 93 then "-"
               else if beforeNul r = first ∧ clearVirtualHost r = clearVirtualHost sa then "ok"
+              -- a `[` / `]` in a LATER NUL part (and no `:` anywhere) makes netutil.Host fail, the virtual host
+              -- counts as empty and the backend's own host is sent instead: recorded finding, own signature
+              else if !sa.contains 58 && (sa.contains 91 || sa.contains 93) then "viol:host-replaced-on-bracket"
               else "viol:host-first"
           else "-"
       (out, verdict)
